@@ -39,6 +39,10 @@ class Config:
     max_stmts: int = 8
     max_depth: int = 2
     symbolic_bounds: bool = True
+    # C16: extra statement shapes aimed at what the loop passes match; each entry is a kind of
+    # `ProgGen.shape` ("fold", "nest", "while", "licm", "hoist_if").  Empty = generator unchanged.
+    loop_shapes: list[str] = field(default_factory=list)
+    shape_weight: int = 3
 
 
 class ProgGen:
@@ -123,7 +127,13 @@ class ProgGen:
             kinds += ["ext"]
         if c.calls and self.helpers:
             kinds += ["call"]
+        if c.loop_shapes and depth < c.max_depth:
+            for sh in c.loop_shapes:
+                kinds += ["shape:" + sh] * c.shape_weight
         k = self.rng.choice(kinds)
+        if k.startswith("shape:"):
+            self.shape(k[6:], pool, lines, ind, depth)
+            return
         if k == "int":
             t = self.rng.choice([x for x in c.int_types if x != "i1"] or c.int_types)
             op = self.rng.choice(c.int_ops)
@@ -256,6 +266,278 @@ class ProgGen:
             lines.append(ind + "}")
             for r, t in zip(res, tys):
                 pool.setdefault(t, []).append(r)
+
+
+    # ------------------------------------------------------------------ loop shapes (C16)
+    def idx_const(self, lines: list[str], ind: str, vals: list[int]) -> str:
+        v = self.fresh("c")
+        lines.append(f"{ind}{v} = arith.constant {self.rng.choice(vals)} : index")
+        return v
+
+    def idx_bound(self, pool: dict[str, list[str]], lines: list[str], ind: str, vals: list[int], psym: float = 0.3) -> str:
+        """a loop bound: a constant, or (only function arguments, kept small by `inputs`) a symbol"""
+        if self.cfg.symbolic_bounds and pool.get("__small_index") and self.rng.random() < psym:
+            return self.rng.choice(pool["__small_index"])
+        return self.idx_const(lines, ind, vals)
+
+    def ext_call(self, t: str, v: str, lines: list[str], ind: str) -> None:
+        name = f"ext_{t}"
+        self.ext_sigs[name] = t
+        lines.append(f"{ind}func.call @{name}({v}) : ({t}) -> ()")
+
+    def body_pool(self, pool: dict[str, list[str]]) -> dict[str, list[str]]:
+        return {t: list(vs) for t, vs in pool.items()}
+
+    def loop_header(self, pool: dict[str, list[str]], lines: list[str], ind: str, iv: str, lb: str, ub: str, st: str,
+                    tys: list[str], inits: list[str] | None = None) -> tuple[list[str], list[str]]:
+        """emit `scf.for` header line; returns (result names, iter-arg names)"""
+        if inits is None:
+            inits = [self.pick(pool, t, lines, ind) for t in tys]
+        res = [self.fresh() for _ in tys]
+        accs = [self.fresh("acc") for _ in tys]
+        hdr = (", ".join(res) + " = " if res else "") + f"scf.for {iv} = {lb} to {ub} step {st}"
+        if tys:
+            hdr += " iter_args(" + ", ".join(f"{a} = {i}" for a, i in zip(accs, inits)) + ") -> (" + ", ".join(tys) + ")"
+        lines.append(ind + hdr + " {")
+        return res, accs
+
+    def shape(self, kind: str, pool: dict[str, list[str]], lines: list[str], ind: str, depth: int) -> None:
+        getattr(self, "shape_" + kind)(pool, lines, ind, depth)
+
+    def shape_fold(self, pool: dict[str, list[str]], lines: list[str], ind: str, depth: int) -> None:
+        """`scf.for` whose induction variable feeds a chain of addi/muli with loop-invariant operands
+        (what scf-for-loop-range-folding matches); constants include 0 and negatives"""
+        r = self.rng
+        lb = self.idx_bound(pool, lines, ind, [-2, 0, 0, 1, 3])
+        ub = self.idx_bound(pool, lines, ind, [-3, 0, 1, 2, 4, 5, 7])
+        st = self.idx_const(lines, ind, [1, 1, 2, 3])
+        nch = r.randint(1, 3)
+        consts = []
+        for _ in range(nch):
+            q = r.random()
+            if q < 0.55:
+                consts.append(self.idx_const(lines, ind, [-3, -1, 0, 1, 1, 2, 2, 3, 5]))
+            elif q < 0.8 and pool.get("index"):
+                consts.append(r.choice(pool["index"]))
+            else:
+                a, b = self.idx_const(lines, ind, [-2, 0, 1, 2, 3]), self.pick(pool, "index", lines, ind)
+                v = self.fresh()
+                lines.append(f"{ind}{v} = arith.{r.choice(['addi', 'muli', 'subi'])} {a}, {b} : index")
+                consts.append(v)
+        tys = ["index"] if r.random() < 0.5 else []
+        iv = self.fresh("i")
+        res, accs = self.loop_header(pool, lines, ind, iv, lb, ub, st, tys)
+        p2 = self.body_pool(pool)
+        in2 = ind + "  "
+        x = iv
+        leak_iv = r.random() < 0.1
+        for cst in consts:
+            v = self.fresh()
+            op = r.choice(["addi", "muli", "muli"])
+            a, b = (x, cst) if r.random() < 0.6 else (cst, x)
+            lines.append(f"{in2}{v} = arith.{op} {a}, {b} : index")
+            if x != iv and r.random() < 0.1:
+                p2.setdefault("index", []).append(x)     # a second use stops the folding chain there
+            x = v
+        if leak_iv:
+            p2.setdefault("index", []).append(iv)
+        p2.setdefault("index", []).append(x)
+        self.ext_call("index", x, lines, in2)
+        for a in accs:
+            p2.setdefault("index", []).append(a)
+        for _ in range(r.randint(0, 2)):
+            self.stmt(p2, lines, in2, depth + 1)
+        if tys:
+            y = self.fresh()
+            lines.append(f"{in2}{y} = arith.addi {accs[0]}, {x} : index")
+            lines.append(f"{in2}scf.yield {y} : index")
+        lines.append(ind + "}")
+        for rr in res:
+            pool.setdefault("index", []).append(rr)
+
+    def shape_nest(self, pool: dict[str, list[str]], lines: list[str], ind: str, depth: int) -> None:
+        """perfectly nested pair of `scf.for` (what scf-for-loop-flatten matches): either both
+        induction variables feed one addi and the inner range is [0, outer step), or neither is used"""
+        r = self.rng
+        used = r.random() < 0.55
+        in2, in3 = ind + "  ", ind + "    "
+        if used:
+            osv = r.choice([2, 3, 4, 4, 6, 8])
+            divs = [d for d in range(1, osv + 1) if osv % d == 0]
+            isv = r.choice(divs) if r.random() < 0.85 else r.choice([2, 3, 5])
+            olb = self.idx_bound(pool, lines, ind, [0, 0, 1, -2, 4])
+            oub = self.idx_bound(pool, lines, ind, [0, 5, 8, 9, 12, 16, -3, osv, 2 * osv, 2 * osv + 1])
+            ost = self.idx_const(lines, ind, [osv])
+            ilb = self.idx_const(lines, ind, [0] * 9 + [1])
+            iub = self.idx_const(lines, ind, [osv] * 8 + [osv - 1, osv + 1])
+            ist = self.idx_const(lines, ind, [isv])
+        else:
+            olb = self.idx_bound(pool, lines, ind, [0] * 6 + [1, -1], psym=0.1)
+            oub = self.idx_bound(pool, lines, ind, [0, 1, 3, 4, 5, 7, -2])
+            ost = self.idx_const(lines, ind, [1, 1, 2, 3, 5])
+            ilb = self.idx_const(lines, ind, [0, 0, 1, 2, -1])
+            iub = self.idx_const(lines, ind, [0, 3, 4, 7, 8, -2])
+            ist = self.idx_const(lines, ind, [1, 1, 2, 3])
+        ntys = r.choice([0, 0, 1, 2])
+        tys = [r.choice(["index", "i32"]) for _ in range(ntys)]
+        o, i = self.fresh("i"), self.fresh("i")
+        ores, oaccs = self.loop_header(pool, lines, ind, o, olb, oub, ost, tys)
+        same = len(set(tys)) <= 1
+        forward = r.random() < 0.85 or not same
+        iinits = list(oaccs) if forward else list(reversed(oaccs))
+        ires, iaccs = self.loop_header(pool, lines, in2, i, ilb, iub, ist, tys, inits=iinits)
+        p3 = self.body_pool(pool)
+        if used:
+            k = self.fresh()
+            a, b = (o, i) if r.random() < 0.5 else (i, o)
+            lines.append(f"{in3}{k} = arith.{'addi' if r.random() < 0.92 else 'muli'} {a}, {b} : index")
+            p3.setdefault("index", []).append(k)
+            if r.random() < 0.08:
+                p3.setdefault("index", []).append(r.choice([o, i]))
+            self.ext_call("index", k, lines, in3)
+        else:
+            self.ext_call("index", self.pick(p3, "index", lines, in3), lines, in3)
+        for a, t in zip(iaccs, tys):
+            p3.setdefault(t, []).append(a)
+        for _ in range(r.randint(0, 2)):
+            self.stmt(p3, lines, in3, depth + 2)
+        if tys:
+            ys = [self.pick(p3, t, lines, in3) if r.random() < 0.6 else a for a, t in zip(iaccs, tys)]
+            lines.append(f"{in3}scf.yield " + ", ".join(ys) + " : " + ", ".join(tys))
+        lines.append(in2 + "}")
+        if tys:
+            ys = list(ires) if r.random() < 0.9 or not same else list(reversed(ires))
+            lines.append(f"{in2}scf.yield " + ", ".join(ys) + " : " + ", ".join(tys))
+        lines.append(ind + "}")
+        for rr, t in zip(ores, tys):
+            pool.setdefault(t, []).append(rr)
+
+    def shape_while(self, pool: dict[str, list[str]], lines: list[str], ind: str, depth: int) -> None:
+        """counting `scf.while` (terminates by construction: positive constant increment, small bound)"""
+        r = self.rng
+        k0 = self.idx_bound(pool, lines, ind, [-1, 0, 0, 1, 2])
+        n = self.idx_bound(pool, lines, ind, [-2, 0, 1, 3, 4, 6])
+        one = self.idx_const(lines, ind, [1, 1, 2])
+        t = r.choice([x for x in self.cfg.int_types if x != "i1"] + self.cfg.float_types)
+        a0 = self.pick(pool, t, lines, ind)
+        rk, ra = self.fresh(), self.fresh()
+        k, a, cnd = self.fresh("i"), self.fresh("acc"), self.fresh()
+        in2 = ind + "  "
+        lines.append(f"{ind}{rk}, {ra} = scf.while ({k} = {k0}, {a} = {a0}) : (index, {t}) -> (index, {t}) {{")
+        lines.append(f"{in2}{cnd} = arith.cmpi slt, {k}, {n} : index")
+        lines.append(f"{in2}scf.condition({cnd}) {k}, {a} : index, {t}")
+        lines.append(ind + "} do {")
+        k2, a2 = self.fresh("i"), self.fresh("acc")
+        lines.append(f"{ind}^wb{self.n}({k2}: index, {a2}: {t}):")
+        p2 = self.body_pool(pool)
+        p2.setdefault("index", []).append(k2)
+        p2.setdefault(t, []).append(a2)
+        for _ in range(r.randint(1, 3)):
+            self.stmt(p2, lines, in2, depth + 1)
+        a3 = self.pick(p2, t, lines, in2)
+        k3 = self.fresh()
+        lines.append(f"{in2}{k3} = arith.addi {k2}, {one} : index")
+        lines.append(f"{in2}scf.yield {k3}, {a3} : index, {t}")
+        lines.append(ind + "}")
+        pool.setdefault("index", []).append(rk)
+        pool.setdefault(t, []).append(ra)
+
+    PURE_INT = ["addi", "subi", "muli", "andi", "ori", "xori", "divsi", "remsi", "floordivsi", "ceildivsi", "divui",
+                "remui", "minsi", "maxsi"]
+
+    def pure_op(self, t: str, p: dict[str, list[str]], lines: list[str], ind: str, zero_ok: bool = True) -> str:
+        """one side-effect-free integer op on values of `p`; divisors may be zero / symbolic"""
+        r = self.rng
+        DIV = ("divsi", "remsi", "floordivsi", "ceildivsi", "divui", "remui")
+        op = r.choice(DIV) if r.random() < 0.45 else r.choice(self.PURE_INT)
+        a, b = self.pick(p, t, lines, ind), self.pick(p, t, lines, ind)
+        if op in DIV and r.random() < 0.6:
+            b = self.fresh("c")
+            lines.append(f"{ind}{b} = arith.constant {r.choice([0, 0, 0, 1, 2, 3, -1, -2, 7] if zero_ok else [1, 2, 3, 7])} : {t}")
+        v = self.fresh()
+        lines.append(f"{ind}{v} = arith.{op} {a}, {b} : {t}")
+        return v
+
+    def shape_licm(self, pool: dict[str, list[str]], lines: list[str], ind: str, depth: int) -> None:
+        """loop (often zero-trip) whose body has pure ops on values defined outside (what licm moves),
+        pure ops depending on the induction variable, and effects"""
+        r = self.rng
+        t = r.choice(["index", "i32", "i8"])
+        lb = self.idx_bound(pool, lines, ind, [-2, 0, 0, 1, 3])
+        ub = self.idx_bound(pool, lines, ind, [-3, 0, 0, 1, 2, 4])
+        st = self.idx_const(lines, ind, [1, 1, 2, 3])
+        # make sure there are outside values of the type
+        for _ in range(2):
+            if len(pool.get(t, [])) < 2:
+                self.const(pool, t, lines, ind)
+        tys = [t] if r.random() < 0.6 else []
+        iv = self.fresh("i")
+        res, accs = self.loop_header(pool, lines, ind, iv, lb, ub, st, tys)
+        in2 = ind + "  "
+        outer = {t: list(pool.get(t, []))}
+        p2 = self.body_pool(pool)
+        inv: list[str] = []
+        for _ in range(r.randint(1, 3)):
+            v = self.pure_op(t, outer, lines, in2)
+            outer[t].append(v)
+            inv.append(v)
+            p2.setdefault(t, []).append(v)
+        if r.random() < 0.3 and pool.get("i1"):
+            # invariant computation nested in a conditional inside the loop
+            cnd = r.choice(pool["i1"])
+            rv = self.fresh()
+            lines.append(f"{in2}{rv} = scf.if {cnd} -> ({t}) {{")
+            w = self.pure_op(t, {t: list(outer[t])}, lines, in2 + "  ")
+            lines.append(f"{in2}  scf.yield {w} : {t}")
+            lines.append(in2 + "} else {")
+            lines.append(f"{in2}  scf.yield {r.choice(outer[t])} : {t}")
+            lines.append(in2 + "}")
+            p2.setdefault(t, []).append(rv)
+            inv.append(rv)
+        p2.setdefault("index", []).append(iv)
+        for a in accs:
+            p2.setdefault(t, []).append(a)
+        self.ext_call(t, r.choice(inv), lines, in2)
+        for _ in range(r.randint(0, 3)):
+            self.stmt(p2, lines, in2, depth + 1)
+        if tys:
+            y = self.fresh()
+            lines.append(f"{in2}{y} = arith.addi {accs[0]}, {r.choice(inv)} : {t}")
+            lines.append(f"{in2}scf.yield {y} : {t}")
+        lines.append(ind + "}")
+        for rr in res:
+            pool.setdefault(t, []).append(rr)
+
+    def shape_hoist_if(self, pool: dict[str, list[str]], lines: list[str], ind: str, depth: int, nest: int = 0) -> str | None:
+        """`scf.if` whose two branches contain only side-effect-free operations (what
+        control-flow-hoist moves in front of the conditional)"""
+        r = self.rng
+        t = r.choice(["index", "i32", "i8"])
+        cnd = self.pick(pool, "i1", lines, ind)
+        for _ in range(2):
+            if len(pool.get(t, [])) < 2:
+                self.const(pool, t, lines, ind)
+        rv = self.fresh()
+        lines.append(f"{ind}{rv} = scf.if {cnd} -> ({t}) {{")
+        in2 = ind + "  "
+        for branch in range(2):
+            p2 = {t: list(pool.get(t, [])), "i1": list(pool.get("i1", []))}
+            last = None
+            for _ in range(r.randint(0, 3)):
+                if nest < 1 and r.random() < 0.2 and p2["i1"]:
+                    last = self.shape_hoist_if(p2, lines, in2, depth + 1, nest + 1)
+                    if last is not None and last in p2.get(t, []):
+                        pass
+                else:
+                    last = self.pure_op(t, p2, lines, in2)
+                    p2[t].append(last)
+            y = r.choice(p2[t])
+            lines.append(f"{in2}scf.yield {y} : {t}")
+            if branch == 0:
+                lines.append(ind + "} else {")
+        lines.append(ind + "}")
+        pool.setdefault(t, []).append(rv)
+        return rv
 
     # ------------------------------------------------------------------ CFG shapes (top level only)
     def cfg_diamond(self, pool: dict[str, list[str]], lines: list[str]) -> None:
@@ -402,12 +684,249 @@ class ProgGen:
 
 def parse_module(text: str) -> Any:
     from xdsl.context import Context
-    from xdsl.dialects import arith, builtin, cf, func, scf
+    return parse_module_ctx(text)[0]
+
+
+def parse_module_ctx(text: str) -> tuple[Any, Any]:
+    """(module, context); the context also knows affine / memref / symref (C16 programs)"""
+    from xdsl.context import Context
+    from xdsl.dialects import affine, arith, builtin, cf, func, memref, scf, symref
     from xdsl.parser import Parser
 
     ctx = Context()
-    for d in (builtin.Builtin, arith.Arith, func.Func, cf.Cf, scf.Scf):
+    for d in (builtin.Builtin, arith.Arith, func.Func, cf.Cf, scf.Scf, affine.Affine, memref.MemRef, symref.Symref):
         ctx.load_dialect(d)
     m = Parser(ctx, text).parse_module()
     m.verify()
-    return m
+    return m, ctx
+
+
+# ------------------------------------------------------------------------------------------------
+# C16: affine programs (lower-affine) and symref programs (frontend-desymrefy)
+# ------------------------------------------------------------------------------------------------
+
+class AffineGen:
+    """func with affine.for (constant bounds, iter_args, nesting), affine.apply over random
+    expressions (add, mul/mod/floordiv/ceildiv by constants), affine.load/store on one small static
+    memref, external calls.  Everything index-typed."""
+
+    def __init__(self, rng: Any):
+        self.rng = rng
+        self.n = 0
+
+    def fresh(self, p: str = "v") -> str:
+        self.n += 1
+        return f"%{p}{self.n}"
+
+    def expr(self, nd: int, ns: int, depth: int) -> str:
+        r = self.rng
+        leaves = [f"d{i}" for i in range(nd)] * 2 + [f"s{i}" for i in range(ns)]
+        if depth <= 0 or r.random() < 0.25:
+            if leaves and r.random() < 0.8:
+                return r.choice(leaves)
+            return str(r.choice([0, 1, 2, 3, 5, 7, -1, -3]))
+        k = r.choice(["+", "+", "*", "mod", "mod", "floordiv", "ceildiv"])
+        a = self.expr(nd, ns, depth - 1)
+        if k == "+":
+            return f"({a} + {self.expr(nd, ns, depth - 1)})"
+        if k == "*":
+            return f"({a} * {r.choice([2, 3, -1, -2, 4, 0])})"
+        c = r.choice([1, 2, 3, 4, 5, 8]) if r.random() < 0.95 else r.choice([0, -2])
+        return f"({a} {k} {c})"
+
+    def apply(self, pool: list[str], lines: list[str], ind: str) -> str:
+        r = self.rng
+        nd, ns = r.randint(0, 2), r.randint(0, 1)
+        if nd + ns == 0:
+            nd = 1
+        e = self.expr(nd, ns, r.randint(1, 3))
+        ds = [r.choice(pool) for _ in range(nd)]
+        ss = [r.choice(pool) for _ in range(ns)]
+        dims = ", ".join(f"d{i}" for i in range(nd))
+        syms = "[" + ", ".join(f"s{i}" for i in range(ns)) + "]" if ns else ""
+        v = self.fresh()
+        ops = ", ".join(ds + ss)
+        tys = ", ".join(["index"] * (nd + ns))
+        lines.append(f'{ind}{v} = "affine.apply"({ops}) <{{"map" = affine_map<({dims}){syms} -> ({e})>}}> : ({tys}) -> index')
+        return v
+
+    def stmt(self, pool: list[str], lines: list[str], ind: str, depth: int, mem: tuple[str, int] | None) -> None:
+        r = self.rng
+        kinds = ["apply"] * 3 + ["ext"] * 2 + ["arith"]
+        if mem:
+            kinds += ["load", "store"]
+        if depth < 2:
+            kinds += ["for"] * 2
+        k = r.choice(kinds)
+        if k == "apply":
+            pool.append(self.apply(pool, lines, ind))
+        elif k == "ext":
+            lines.append(f"{ind}func.call @ext_index({r.choice(pool)}) : (index) -> ()")
+        elif k == "arith":
+            v = self.fresh()
+            lines.append(f"{ind}{v} = arith.{r.choice(['addi', 'muli', 'subi'])} {r.choice(pool)}, {r.choice(pool)} : index")
+            pool.append(v)
+        elif k in ("load", "store"):
+            assert mem is not None
+            m, n = mem
+            x = r.choice(pool)
+            e = r.choice([f"d0 mod {n}", f"(d0 + {r.randint(0, 5)}) mod {n}", f"(d0 * 2) mod {n}", f"d0 mod {n}", "d0"])
+            if k == "load":
+                v = self.fresh()
+                lines.append(f'{ind}{v} = "affine.load"({m}, {x}) <{{"map" = affine_map<(d0) -> ({e})>}}> : (memref<{n}xindex>, index) -> index')
+                pool.append(v)
+            else:
+                lines.append(f'{ind}"affine.store"({r.choice(pool)}, {m}, {x}) <{{"map" = affine_map<(d0) -> ({e})>}}> : (index, memref<{n}xindex>, index) -> ()')
+        else:
+            self.loop(pool, lines, ind, depth, mem)
+
+    def loop(self, pool: list[str], lines: list[str], ind: str, depth: int, mem: tuple[str, int] | None) -> None:
+        r = self.rng
+        lb, ub, st = r.choice([0, 0, 1, -2, 3]), r.choice([0, 1, 2, 4, 5, 7, -3]), r.choice([1, 1, 2, 3])
+        nit = r.choice([0, 1, 1, 2])
+        inits = [r.choice(pool) for _ in range(nit)]
+        res = [self.fresh() for _ in range(nit)]
+        iv = self.fresh("i")
+        accs = [self.fresh("acc") for _ in range(nit)]
+        lbm, ubm, lbo = f"() -> ({lb})", f"() -> ({ub})", []
+        if r.random() < 0.06:
+            lbm, lbo = "(d0) -> (d0)", [r.choice(pool)]     # operand bounds: lower-affine refuses (raises)
+        lines.append(f'{ind}{(", ".join(res) + " = ") if res else ""}"affine.for"({", ".join(lbo + inits)}) <{{"lowerBoundMap" = affine_map<{lbm}>, '
+                     f'"upperBoundMap" = affine_map<{ubm}>, "step" = {st} : index, operandSegmentSizes = array<i32: {len(lbo)}, 0, {nit}>}}> ({{')
+        in2 = ind + "  "
+        lines.append(f"{ind}^ab{self.n}({iv}: index" + "".join(f", {a}: index" for a in accs) + "):")
+        p2 = list(pool) + [iv] + accs
+        for _ in range(r.randint(1, 4)):
+            self.stmt(p2, lines, in2, depth + 1, mem)
+        ys = [r.choice(p2) for _ in range(nit)]
+        lines.append(f'{in2}"affine.yield"({", ".join(ys)}) : ({", ".join(["index"] * nit)}) -> ()')
+        lines.append(f'{ind}}}) : ({", ".join(["index"] * (len(lbo) + nit))}) -> ({", ".join(["index"] * nit)})')
+        pool.extend(res)
+
+    def program(self) -> dict[str, Any]:
+        r = self.rng
+        self.n = 0
+        nargs = r.randint(1, 3)
+        args = [f"%a{i}" for i in range(nargs)]
+        pool = list(args)
+        lines: list[str] = []
+        c = self.fresh("c")
+        lines.append(f"  {c} = arith.constant {r.choice([0, 1, 2, 5, -3])} : index")
+        pool.append(c)
+        mem = None
+        if r.random() < 0.5:
+            n = r.choice([3, 4, 6])
+            m = self.fresh("m")
+            lines.append(f'  {m} = "memref.alloc"() <{{operandSegmentSizes = array<i32: 0, 0>}}> : () -> memref<{n}xindex>')
+            iv = self.fresh("i")
+            lines.append(f'  "affine.for"() <{{"lowerBoundMap" = affine_map<() -> (0)>, "upperBoundMap" = affine_map<() -> ({n})>, "step" = 1 : index, operandSegmentSizes = array<i32: 0, 0, 0>}}> ({{')
+            lines.append(f"  ^ab0({iv}: index):")
+            v = self.fresh()
+            lines.append(f'    {v} = "affine.apply"({iv}) <{{"map" = affine_map<(d0) -> ((d0 * {r.choice([1, 3, -2])}) + {r.choice([0, 1, 10])})>}}> : (index) -> index')
+            lines.append(f'    "affine.store"({v}, {m}, {iv}) <{{"map" = affine_map<(d0) -> (d0)>}}> : (index, memref<{n}xindex>, index) -> ()')
+            lines.append('    "affine.yield"() : () -> ()')
+            lines.append("  }) : () -> ()")
+            mem = (m, n)
+        for _ in range(r.randint(2, 6)):
+            self.stmt(pool, lines, "  ", 0, mem)
+        nret = r.randint(1, 2)
+        rets = [r.choice(pool) for _ in range(nret)]
+        sig = ", ".join(f"{a}: index" for a in args)
+        text = ("builtin.module {\nfunc.func @main(" + sig + ") -> (" + ", ".join(["index"] * nret) + ") {\n" + "\n".join(lines)
+                + "\n  func.return " + ", ".join(rets) + " : " + ", ".join(["index"] * nret) + "\n}\n"
+                + "func.func private @ext_index(index) -> ()\n}\n")
+        return {"text": text, "arg_types": ["index"] * nargs, "ret_types": ["index"] * nret}
+
+
+class SymrefGen:
+    """func whose body uses symref.declare/update/fetch (always written before read), i32 arithmetic,
+    external calls; optionally symbol uses nested in scf.if / scf.for regions."""
+
+    def __init__(self, rng: Any, nested: bool):
+        self.rng = rng
+        self.nested = nested
+        self.n = 0
+
+    def fresh(self, p: str = "v") -> str:
+        self.n += 1
+        return f"%{p}{self.n}"
+
+    def stmt(self, syms: list[str], pool: list[str], lines: list[str], ind: str, depth: int, conds: list[str]) -> None:
+        r = self.rng
+        kinds = ["fetch"] * 3 + ["update"] * 3 + ["arith"] * 2 + ["ext"] * 2
+        if depth == 0:
+            kinds += ["declare"]
+        if self.nested and depth < 2:
+            kinds += ["if", "for"]
+        k = r.choice(kinds)
+        if k == "fetch":
+            v = self.fresh()
+            lines.append(f"{ind}{v} = symref.fetch @{r.choice(syms)} : i32")
+            pool.append(v)
+        elif k == "update":
+            lines.append(f"{ind}symref.update @{r.choice(syms)} = {r.choice(pool)} : i32")
+        elif k == "arith":
+            v = self.fresh()
+            lines.append(f"{ind}{v} = arith.{r.choice(['addi', 'muli', 'subi', 'xori'])} {r.choice(pool)}, {r.choice(pool)} : i32")
+            pool.append(v)
+        elif k == "ext":
+            lines.append(f"{ind}func.call @ext_i32({r.choice(pool)}) : (i32) -> ()")
+        elif k == "declare":
+            s = f"s{len(syms)}"
+            lines.append(f'{ind}symref.declare "{s}"')
+            lines.append(f"{ind}symref.update @{s} = {r.choice(pool)} : i32")
+            syms.append(s)
+        elif k == "if":
+            lines.append(f"{ind}scf.if {r.choice(conds)} {{")
+            p2 = list(pool)
+            for _ in range(r.randint(1, 3)):
+                self.stmt(syms, p2, lines, ind + "  ", depth + 1, conds)
+            if r.random() < 0.5:
+                lines.append(ind + "} else {")
+                p2 = list(pool)
+                for _ in range(r.randint(1, 3)):
+                    self.stmt(syms, p2, lines, ind + "  ", depth + 1, conds)
+            lines.append(ind + "}")
+        elif k == "for":
+            lb, ub, st = self.fresh("c"), self.fresh("c"), self.fresh("c")
+            lines.append(f"{ind}{lb} = arith.constant 0 : index")
+            lines.append(f"{ind}{ub} = arith.constant {r.choice([0, 1, 3])} : index")
+            lines.append(f"{ind}{st} = arith.constant 1 : index")
+            lines.append(f"{ind}scf.for {self.fresh('i')} = {lb} to {ub} step {st} {{")
+            p2 = list(pool)
+            for _ in range(r.randint(1, 3)):
+                self.stmt(syms, p2, lines, ind + "  ", depth + 1, conds)
+            lines.append(ind + "}")
+
+    def program(self) -> dict[str, Any]:
+        r = self.rng
+        self.n = 0
+        nargs = r.randint(1, 3)
+        arg_tys = ["i32"] * nargs + ["i1"]
+        args = [f"%a{i}" for i in range(nargs + 1)]
+        pool = args[:nargs]
+        conds = [args[-1]]
+        lines: list[str] = []
+        c = self.fresh("c")
+        lines.append(f"  {c} = arith.constant {r.choice([0, 1, 7, -5])} : i32")
+        pool.append(c)
+        syms: list[str] = []
+        for _ in range(r.randint(1, 2)):
+            s = f"s{len(syms)}"
+            lines.append(f'  symref.declare "{s}"')
+            lines.append(f"  symref.update @{s} = {r.choice(pool)} : i32")
+            syms.append(s)
+        for _ in range(r.randint(2, 10)):
+            self.stmt(syms, pool, lines, "  ", 0, conds)
+        rets = []
+        for s in syms[: r.randint(1, len(syms))]:
+            v = self.fresh()
+            lines.append(f"  {v} = symref.fetch @{s} : i32")
+            rets.append(v)
+        if r.random() < 0.5:
+            rets.append(r.choice(pool))
+        sig = ", ".join(f"{a}: {t}" for a, t in zip(args, arg_tys))
+        text = ("builtin.module {\nfunc.func @main(" + sig + ") -> (" + ", ".join(["i32"] * len(rets)) + ") {\n" + "\n".join(lines)
+                + "\n  func.return " + ", ".join(rets) + " : " + ", ".join(["i32"] * len(rets)) + "\n}\n"
+                + "func.func private @ext_i32(i32) -> ()\n}\n")
+        return {"text": text, "arg_types": arg_tys, "ret_types": ["i32"] * len(rets)}
